@@ -1,10 +1,13 @@
 /-
-  Helper lemmas for C06 (a)+(b): validate-then-heal restores the signed build.
+  Helper lemmas for C06 (a)+(b): the heal steps over the abstract filesystem.
 
   Layers: (1) `get`-extensional descriptions of the primitive tree edits (`erase`, `eraseTree`, `set`) and
   preservation of the tree invariant `TInv`; (2) `canon`/`lstat` along a path without symlinks;
-  (3) the heal steps `healDir`, `healSymlink`, `healFile`; (4) sequences of heal steps and how
-  `processWounds`/`healFiles` decompose into them; (5) the assembly used by Props/C06Restore.lean.
+  (3) the heal steps `healDir` (three cases, `healDir_cases`), `healSymlink`, `healFile`; (4) well-formed signed
+  builds; (5) `healBelow` — what a directory wound does when something else stands at the directory's path
+  (`healDir_replaced`, the repair of finding F15); (6) the evaluation lemmas for the F15 instances.
+  The restoration theorems themselves are proved for every interleaving in Proofs/HealTS.lean; the
+  validator-first schedule of `validateAndHeal` is one of them (`sequential_reach`).
 -/
 import Wharf.Model.Heal
 import Wharf.Proofs.Archive
@@ -478,88 +481,71 @@ theorem remove_nondir {t : Tree} (hI : TInv t) {p : Path} (hd : IsDir t p.dropLa
   have hc := canon_ok hI hd (fun h => hdd (mem_of_mem_dropLast h))
   simp only [remove, hc, bind, Except.bind, hg]
 
-theorem healDir_spec {t t' : Tree} {d : Path} (hI : TInv t) (hne : d ≠ []) (hp : PlainAll t d)
-    (h : healDir t d = .ok t') :
-    TInv t' ∧ (∀ q, q <+: d → IsDir t' q) ∧ (∀ q x, q ≠ d → t.get q = some x → t'.get q = some x) ∧
-      (∀ q, ¬ q <+: d → t'.get q = t.get q) := by
-  unfold healDir at h
-  cases hl : lstat t d with
+/-- What `healDir` amounts to on a path without symlinks on the way (`Plain`): the directory is there and
+    nothing happens; or `lstat` fails and the directory and its missing ancestors are created (`mkdirs`); or
+    something that is not a directory stands at the path itself (its parent being a directory) — the case in
+    which `healBelow` runs, see `healDir_replaced`. -/
+theorem healDir_cases (s : Signed) {t : Tree} (hI : TInv t) {p : Path} (hp : Plain t p) (k : Nat)
+    (q : List Nat) :
+    (IsDir t p ∧ healDir s (k + 1) t q p = .ok (t, q)) ∨
+    (PlainAll t p ∧ ¬ IsDir t p ∧ healDir s (k + 1) t q p =
+      match mkdirs t p with
+      | .ok t₁ => .ok (t₁, q)
+      | .error e => .error e) ∨
+    (∃ n, n ≠ .dir ∧ t.get p = some n ∧ IsDir t p.dropLast) := by
+  cases hl : lstat t p with
   | error e =>
-    simp only [hl] at h
-    obtain ⟨h1, h2, h3, h4⟩ := mkdirs_spec hI hp h
-    exact ⟨h1, h2, fun q x _ hq => h3 q x hq, h4⟩
+    right; left
+    refine ⟨⟨hp.1, ?_⟩, ?_, ?_⟩
+    · intro j hj1 hj2 x hx
+      by_cases hj : j = p.length
+      · subst hj
+        rw [List.take_length] at hx
+        rw [lstat_of_get hI hp.1 hx] at hl
+        cases hl
+      · exact hp.2 j hj1 (by omega) x hx
+    · intro hd
+      rw [lstat_of_get hI hp.1 hd] at hl
+      cases hl
+    · simp only [healDir, hl]
+      cases mkdirs t p <;> rfl
   | ok n =>
-    obtain ⟨hg, hpar⟩ := lstat_plain hp.plain hl
+    obtain ⟨hg, hpar⟩ := lstat_plain hp hl
     cases n with
-    | dir =>
-      simp only [hl, Except.ok.injEq] at h
-      subst h
-      refine ⟨hI, ?_, fun _ _ _ h => h, fun _ _ => rfl⟩
-      intro q hq
-      obtain ⟨j, _, rfl⟩ := prefix_iff_take.mp hq
-      exact isDir_take hI hg j
-    | symlink x =>
-      exfalso
-      exact hp.2 d.length (List.length_pos_iff.mpr hne) (Nat.le_refl _) x (by simpa using hg)
-    | file x =>
-      simp only [hl, remove_nondir hI hpar hp.1 hg (by intro h; cases h), bind, Except.bind] at h
-      have hnd : ¬ IsDir t d := by rw [IsDir, hg]; intro h; cases h
-      have hI₁ : TInv (t.erase d) := tinv_erase hI hnd
-      have hge : ∀ q, q ≠ d → (t.erase d).get q = t.get q := by
-        intro q hq
-        by_cases hq0 : q = []
-        · subst hq0; simp [get_nil]
-        · rw [get_erase t d hq0, if_neg hq]
-      have hp₁ : PlainAll (t.erase d) d := by
-        refine ⟨hp.1, ?_⟩
-        intro j hj1 hj2 y
-        have hne' : d.take j ≠ [] := by
-          intro h0
-          have := congrArg List.length h0
-          simp only [List.length_take, List.length_nil] at this
-          have := List.length_pos_iff.mpr hne
-          omega
-        rw [get_erase t d hne']
-        by_cases he : d.take j = d
-        · rw [if_pos he]; intro h; cases h
-        · rw [if_neg he]; exact hp.2 j hj1 hj2 y
-      obtain ⟨h1, h2, h3, h4⟩ := mkdirs_spec hI₁ hp₁ h
-      refine ⟨h1, h2, ?_, ?_⟩
-      · intro q y hq hy
-        exact h3 q y (by rw [hge q hq]; exact hy)
-      · intro q hq
-        rw [h4 q hq, hge q]
-        intro he; apply hq; rw [he]; exact List.prefix_refl _
+    | dir => exact .inl ⟨hg, by simp only [healDir, hl]⟩
+    | file x => exact .inr (.inr ⟨.file x, (by intro h; cases h), hg, hpar⟩)
+    | symlink x => exact .inr (.inr ⟨.symlink x, (by intro h; cases h), hg, hpar⟩)
 
-/-- With the parent a directory and no symlink in the way, healing a directory succeeds. -/
-theorem healDir_ok {t : Tree} {d : Path} (hI : TInv t) (hne : d ≠ []) (hdd : ".." ∉ d)
-    (hpar : IsDir t d.dropLast) (hns : ∀ x, t.get d ≠ some (.symlink x)) : ∃ t', healDir t d = .ok t' := by
-  have hdd' : ".." ∉ d.dropLast := fun h => hdd (mem_of_mem_dropLast h)
-  unfold healDir
-  rw [lstat_of_parent hI hpar hdd]
-  cases hg : t.get d with
-  | none =>
-    refine ⟨_, mkdirs_new hI ⟨hne, ?_, hpar, hdd'⟩⟩
-    intro e he h
-    have := hI.get e he
-    rw [h, hg] at this
-    cases this
-  | some n =>
-    cases n with
-    | dir => exact ⟨t, rfl⟩
-    | symlink x => exact absurd hg (hns x)
-    | file x =>
-      simp only [remove_nondir hI hpar hdd hg (by intro h; cases h), bind, Except.bind]
-      have hnd : ¬ IsDir t d := by rw [IsDir, hg]; intro h; cases h
-      have hI₁ : TInv (t.erase d) := tinv_erase hI hnd
-      refine ⟨_, mkdirs_new hI₁ ⟨hne, ?_, ?_, hdd'⟩⟩
-      · intro e he
-        simp only [Tree.erase, List.mem_filter, bne_iff_ne, ne_eq] at he
-        exact he.2
-      · by_cases h0 : d.dropLast = []
-        · rw [h0]; exact isDir_nil _
-        · rw [IsDir, get_erase t d h0, if_neg (dropLast_ne_self hne)]
-          exact hpar
+/-- `os.Remove(path)`, `os.MkdirAll(path)` where something that is not a directory stands at `p` (its parent
+    being a directory): both succeed, and the result is `t` with an empty directory at `p`. -/
+theorem replace_by_dir {t : Tree} (hI : TInv t) {p : Path} (hne : p ≠ []) (hdd : ".." ∉ p)
+    (hpar : IsDir t p.dropLast) {n : Node} (hg : t.get p = some n) (hn : n ≠ .dir) :
+    remove t p = .ok (t.erase p) ∧ mkdirs (t.erase p) p = .ok ((t.erase p).set p .dir) ∧
+      TInv ((t.erase p).set p .dir) ∧
+      ∀ x, ((t.erase p).set p .dir).get x = if x = p then some .dir else t.get x := by
+  have hdd' : ".." ∉ p.dropLast := fun h => hdd (mem_of_mem_dropLast h)
+  have hnd : ¬ IsDir t p := by rw [IsDir, hg]; intro h; cases h; exact hn rfl
+  have hI₁ : TInv (t.erase p) := tinv_erase hI hnd
+  have hpar₁ : IsDir (t.erase p) p.dropLast := by
+    by_cases h0 : p.dropLast = []
+    · rw [h0]; exact isDir_nil _
+    · rw [IsDir, get_erase t p h0, if_neg (dropLast_ne_self hne)]
+      exact hpar
+  have hnd₁ : ¬ IsDir (t.erase p) p := by
+    rw [IsDir, get_erase t p hne, if_pos rfl]; intro h; cases h
+  refine ⟨remove_nondir hI hpar hdd hg hn, mkdirs_new hI₁ ⟨hne, ?_, hpar₁, hdd'⟩,
+    tinv_set hI₁ hne hpar₁ hnd₁ _, ?_⟩
+  · intro e he
+    simp only [Tree.erase, List.mem_filter, bne_iff_ne, ne_eq] at he
+    exact he.2
+  · intro x
+    rw [get_set _ hne]
+    by_cases hx : x = p
+    · rw [if_pos hx, if_pos hx]
+    · rw [if_neg hx, if_neg hx]
+      by_cases hx0 : x = []
+      · subst hx0; simp [get_nil]
+      · rw [get_erase t p hx0, if_neg hx]
 
 /-! ### healing a symlink or a file: clear the path, then place the node -/
 
@@ -821,98 +807,6 @@ theorem WF.parent_dir {s : Signed} (hs : WF s) {t : Tree} (hA : AllDirs s t) {p 
   · rw [List.dropLast_eq_take]
     exact hA _ (hs.parents p hp _ (by omega) (by omega))
 
-/-! ### sequences of leaf heal steps -/
-
-def healLeaf (t : Tree) : Path × Node → Except Err Tree
-  | (p, .symlink d) => healSymlink t p d
-  | (p, .file S) => healFile t p S
-  | (_, .dir) => .error .einval
-
-def healLeaves : List (Path × Node) → Tree → Except Err Tree
-  | [], t => .ok t
-  | e :: es, t =>
-    match healLeaf t e with
-    | .ok t' => healLeaves es t'
-    | .error err => .error err
-
-theorem healLeaves_append (a b : List (Path × Node)) : ∀ t, healLeaves (a ++ b) t =
-    match healLeaves a t with
-    | .ok t' => healLeaves b t'
-    | .error err => .error err := by
-  induction a with
-  | nil => intro t; rfl
-  | cons e es ih =>
-    intro t
-    simp only [List.cons_append, healLeaves]
-    cases healLeaf t e with
-    | error err => rfl
-    | ok t' => exact ih t'
-
-theorem healLeaf_step {s : Signed} (hs : WF s) {t : Tree} (hI : TInv t) (hA : AllDirs s t)
-    {e : Path × Node} (he : e ∈ leaves s) : ∃ t', healLeaf t e = .ok t' ∧ StepAt t e.1 e.2 t' := by
-  have hp := leaf_mem_allPaths he
-  have hne := (hs.clean _ hp).1
-  have hdd := hs.nodd hp
-  have hpar := hs.parent_dir hA hp
-  obtain ⟨p, n⟩ := e
-  cases n with
-  | dir => exact absurd rfl (leaf_ne_dir he)
-  | symlink d => exact healSymlink_step hI hne hdd hpar d
-  | file S => exact healFile_step hI hne hdd hpar S
-
-theorem StepAt.allDirs {s : Signed} (hs : WF s) {t t' : Tree} {e : Path × Node} (he : e ∈ leaves s)
-    (h : StepAt t e.1 e.2 t') (hA : AllDirs s t) : AllDirs s t' := by
-  intro d hd
-  rw [IsDir, h.other d (fun h' => hs.leaf_not_dir he (h' ▸ hd)) (hs.leaf_not_below he (mem_allPaths_dir hd))]
-  exact hA d hd
-
-/-- A sequence of leaf heal steps, started with every signed directory in place: succeeds, keeps the
-    directories, leaves alone what is neither at nor below a healed path, and establishes every healed
-    entry. -/
-theorem healLeaves_spec {s : Signed} (hs : WF s) : ∀ (L : List (Path × Node)) (t : Tree),
-    (∀ e ∈ L, e ∈ leaves s) → TInv t → AllDirs s t →
-    ∃ t', healLeaves L t = .ok t' ∧ TInv t' ∧ AllDirs s t' ∧
-      (∀ x, (∀ e ∈ L, x ≠ e.1 ∧ isPrefix e.1 x = false) → t'.get x = t.get x) ∧
-      (∀ e ∈ L, t'.get e.1 = some e.2) := by
-  intro L
-  induction L with
-  | nil => intro t _ hI hA; exact ⟨t, rfl, hI, hA, fun _ _ => rfl, by simp⟩
-  | cons a L ih =>
-    intro t hL hI hA
-    have ha : a ∈ leaves s := hL a (by simp)
-    obtain ⟨t₁, h₁, hst⟩ := healLeaf_step hs hI hA ha
-    obtain ⟨t', h', hI', hA', hoth, hest⟩ :=
-      ih t₁ (fun e he => hL e (List.mem_cons_of_mem _ he)) hst.tinv (hst.allDirs hs ha hA)
-    refine ⟨t', by simp only [healLeaves, h₁, h'], hI', hA', ?_, ?_⟩
-    · intro x hx
-      rw [hoth x (fun e he => hx e (List.mem_cons_of_mem _ he))]
-      exact hst.other x (hx a (by simp)).1 (hx a (by simp)).2
-    · intro e he
-      by_cases hex : ∃ b ∈ L, b.1 = e.1
-      · obtain ⟨b, hb, hbe⟩ := hex
-        have : b = e := hs.leaf_fun (hL b (List.mem_cons_of_mem _ hb)) (hL e he) hbe
-        subst this
-        exact hest b hb
-      · have hea : e = a := by
-          rcases List.mem_cons.mp he with h | h
-          · exact h
-          · exact absurd ⟨e, h, rfl⟩ hex
-        subst hea
-        rw [hoth e.1]
-        · exact hst.at_
-        · intro b hb
-          refine ⟨fun h => hex ⟨b, hb, h.symm⟩, ?_⟩
-          exact hs.leaf_not_below (hL b (List.mem_cons_of_mem _ hb)) (leaf_mem_allPaths ha)
-
-/-! ### sequences of directory heal steps -/
-
-def healDirs : List Path → Tree → Except Err Tree
-  | [], t => .ok t
-  | d :: ds, t =>
-    match healDir t d with
-    | .ok t' => healDirs ds t'
-    | .error err => .error err
-
 /-- no signed directory is a symlink (as a statement about `get`) -/
 def NoSymDirs (s : Signed) (t : Tree) : Prop := ∀ d ∈ s.dirs, ∀ x, t.get d ≠ some (.symlink x)
 
@@ -931,122 +825,6 @@ theorem WF.plain {s : Signed} (hs : WF s) {t : Tree} (hn : NoSymDirs s t) {p : P
     Plain t p :=
   ⟨hs.nodd hp, fun j hj1 hj2 x => hn _ (hs.parents p hp j (by omega) hj2) x⟩
 
-theorem healDirs_spec {s : Signed} (hs : WF s) : ∀ (W : List Path) (t t' : Tree),
-    (∀ d ∈ W, d ∈ s.dirs) → TInv t → NoSymDirs s t → healDirs W t = .ok t' →
-    TInv t' ∧ NoSymDirs s t' ∧ (∀ d ∈ W, IsDir t' d) ∧ (∀ q, IsDir t q → IsDir t' q) ∧
-      (∀ q x, q ∉ s.dirs → t.get q = some x → t'.get q = some x) ∧
-      (∀ q, (∀ d ∈ W, ¬ q <+: d) → t'.get q = t.get q) := by
-  intro W
-  induction W with
-  | nil =>
-    intro t t' _ hI hn h
-    simp only [healDirs, Except.ok.injEq] at h
-    subst h
-    exact ⟨hI, hn, by simp, fun _ h => h, fun _ _ _ h => h, fun _ _ => rfl⟩
-  | cons d W ih =>
-    intro t t' hW hI hn h
-    have hd : d ∈ s.dirs := hW d (by simp)
-    have hne : d ≠ [] := (hs.clean d (mem_allPaths_dir hd)).1
-    simp only [healDirs] at h
-    cases h₁ : healDir t d with
-    | error e => simp [h₁] at h
-    | ok t₁ =>
-      simp only [h₁] at h
-      obtain ⟨a1, a2, a3, a4⟩ := healDir_spec hI hne (hs.plainAll hn hd) h₁
-      have hmono : ∀ q, IsDir t q → IsDir t₁ q := by
-        intro q hq
-        by_cases hqd : q = d
-        · subst hqd; exact a2 q (List.prefix_refl _)
-        · exact a3 q _ hqd hq
-      have hn₁ : NoSymDirs s t₁ := by
-        intro d' hd' x hx
-        by_cases hpre : d' <+: d
-        · have := a2 d' hpre
-          rw [IsDir, hx] at this
-          cases this
-        · rw [a4 d' hpre] at hx
-          exact hn d' hd' x hx
-      obtain ⟨b1, b2, b3, b4, b5, b6⟩ :=
-        ih t₁ t' (fun x hx => hW x (List.mem_cons_of_mem _ hx)) a1 hn₁ h
-      refine ⟨b1, b2, ?_, fun q hq => b4 q (hmono q hq), ?_, ?_⟩
-      · intro x hx
-        rcases List.mem_cons.mp hx with rfl | hx
-        · exact b4 _ (a2 _ (List.prefix_refl _))
-        · exact b3 x hx
-      · intro q x hq hx
-        exact b5 q x hq (a3 q x (fun h' => hq (h' ▸ hd)) hx)
-      · intro q hq
-        rw [b6 q (fun x hx => hq x (List.mem_cons_of_mem _ hx)), a4 q (hq d (by simp))]
-
-/-- The order condition under which a sequence of directory heals succeeds: every proper ancestor of a
-    directory to heal is a directory already or is healed earlier in the sequence. -/
-def Ready (t : Tree) (W : List Path) : Prop :=
-  ∀ W₁ d W₂, W = W₁ ++ d :: W₂ → ∀ j, 0 < j → j < d.length → IsDir t (d.take j) ∨ d.take j ∈ W₁
-
-theorem healDirs_ok {s : Signed} (hs : WF s) : ∀ (W : List Path) (t : Tree),
-    (∀ d ∈ W, d ∈ s.dirs) → TInv t → NoSymDirs s t → Ready t W → ∃ t', healDirs W t = .ok t' := by
-  intro W
-  induction W with
-  | nil => intro t _ _ _ _; exact ⟨t, rfl⟩
-  | cons d W ih =>
-    intro t hW hI hn hr
-    have hd : d ∈ s.dirs := hW d (by simp)
-    have hne : d ≠ [] := (hs.clean d (mem_allPaths_dir hd)).1
-    have hpar : IsDir t d.dropLast := by
-      by_cases hl : d.length ≤ 1
-      · have : d.dropLast = [] := by
-          apply List.eq_nil_of_length_eq_zero
-          simp; omega
-        rw [this]; exact isDir_nil t
-      · rw [List.dropLast_eq_take]
-        rcases hr [] d W rfl (d.length - 1) (by omega) (by omega) with h | h
-        · exact h
-        · cases h
-    obtain ⟨t₁, h₁⟩ := healDir_ok hI hne (hs.nodd (mem_allPaths_dir hd)) hpar (hn d hd)
-    obtain ⟨a1, a2, a3, a4⟩ := healDir_spec hI hne (hs.plainAll hn hd) h₁
-    have hmono : ∀ q, IsDir t q → IsDir t₁ q := by
-      intro q hq
-      by_cases hqd : q = d
-      · subst hqd; exact a2 q (List.prefix_refl _)
-      · exact a3 q _ hqd hq
-    have hn₁ : NoSymDirs s t₁ := by
-      intro d' hd' x hx
-      by_cases hpre : d' <+: d
-      · have := a2 d' hpre
-        rw [IsDir, hx] at this
-        cases this
-      · rw [a4 d' hpre] at hx
-        exact hn d' hd' x hx
-    have hr₁ : Ready t₁ W := by
-      intro W₁ d' W₂ hW' j hj1 hj2
-      rcases hr (d :: W₁) d' W₂ (by rw [hW']; rfl) j hj1 hj2 with h | h
-      · exact .inl (hmono _ h)
-      · rcases List.mem_cons.mp h with h | h
-        · left; rw [h]; exact a2 d (List.prefix_refl _)
-        · exact .inr h
-    obtain ⟨t', h'⟩ := ih t₁ (fun x hx => hW x (List.mem_cons_of_mem _ hx)) a1 hn₁ hr₁
-    exact ⟨t', by simp only [healDirs, h₁, h']⟩
-
-/-! ### how `processWounds` and `healFiles` decompose into heal steps -/
-
-def isDirOk : Except Err Node → Bool
-  | .ok .dir => true
-  | _ => false
-
-def symOk (dest : String) : Except Err Node → Bool
-  | .ok (.symlink d) => d == dest
-  | _ => false
-
-theorem isDirOk_iff (r : Except Err Node) : isDirOk r = true ↔ r = .ok .dir := by
-  cases r with
-  | error e => simp [isDirOk]
-  | ok n => cases n <;> simp [isDirOk]
-
-theorem symOk_iff (dest : String) (r : Except Err Node) : symOk dest r = true ↔ r = .ok (.symlink dest) := by
-  cases r with
-  | error e => simp [symOk]
-  | ok n => cases n <;> simp [symOk]
-
 theorem outcome_bind_ok {α β} {x : Outcome α} {f : α → Outcome β} {b : β} (h : x.bind f = .ok b) :
     ∃ a, x = .ok a ∧ f a = .ok b := by
   cases x with
@@ -1054,283 +832,8 @@ theorem outcome_bind_ok {α β} {x : Outcome α} {f : α → Outcome β} {b : β
   | err e => cases h
   | panic e => cases h
 
-/-- the signed directories the validator wounds in `t0` -/
-def woundedDirs (t0 : Tree) (ps : List Path) : List Path := ps.filter (fun d => !isDirOk (lstat t0 d))
 
-/-- the signed symlinks the validator wounds in `t0`, as leaves -/
-def woundedSyms (t0 : Tree) (sl : List (Path × String)) : List (Path × Node) :=
-  (sl.filter (fun e => !symOk e.2 (lstat t0 e.1))).map (fun e => (e.1, Node.symlink e.2))
-
-theorem dirPass (s : Signed) (t0 : Tree) : ∀ (ps pre : List Path) (dw : List Wound),
-    s.dirs = pre ++ ps → dirWounds t0 pre.length ps = .ok dw →
-    ∀ (rest : List Wound) (t : Tree) (q : List Nat), processWounds s (dw ++ rest) t q =
-      match healDirs (woundedDirs t0 ps) t with
-      | .ok t' => processWounds s rest t' q
-      | .error err => .error err := by
-  intro ps
-  induction ps with
-  | nil =>
-    intro pre dw _ h rest t q
-    simp only [dirWounds, Outcome.ok.injEq] at h
-    subst h
-    rfl
-  | cons p ps ih =>
-    intro pre dw hsd h rest t q
-    have hidx : s.dirs[pre.length]? = some p := by rw [hsd]; simp
-    have hsd' : s.dirs = (pre ++ [p]) ++ ps := by simp [hsd]
-    have hlen : (pre ++ [p]).length = pre.length + 1 := by simp
-    have wound : isDirOk (lstat t0 p) = false →
-        ((dirWounds t0 (pre.length + 1) ps).bind fun ws => .ok (⟨.dir, pre.length, 0, 0⟩ :: ws)) = .ok dw →
-        processWounds s (dw ++ rest) t q =
-          match healDirs (woundedDirs t0 (p :: ps)) t with
-          | .ok t' => processWounds s rest t' q
-          | .error err => .error err := by
-      intro hw hb
-      obtain ⟨dw', h1, h2⟩ := outcome_bind_ok hb
-      simp only [Outcome.ok.injEq] at h2
-      subst h2
-      have hf : woundedDirs t0 (p :: ps) = p :: woundedDirs t0 ps := by
-        simp [woundedDirs, hw]
-      rw [hf, List.cons_append, processWounds]
-      simp only [hidx, bind, Except.bind, healDirs]
-      cases healDir t p with
-      | error e => rfl
-      | ok t₁ =>
-        simp only
-        exact ih (pre ++ [p]) dw' hsd' (by rw [hlen]; exact h1) rest t₁ q
-    unfold dirWounds at h
-    cases hl : lstat t0 p with
-    | error e =>
-      simp only [hl] at h
-      by_cases hn : notExist e = true
-      · simp only [hn, if_true] at h
-        exact wound (by rw [hl]; rfl) h
-      · simp only [hn] at h
-        cases h
-    | ok n =>
-      simp only [hl] at h
-      cases n with
-      | dir =>
-        have hf : woundedDirs t0 (p :: ps) = woundedDirs t0 ps := by
-          simp [woundedDirs, hl, isDirOk]
-        rw [hf]
-        exact ih (pre ++ [p]) dw hsd' (by rw [hlen]; exact h) rest t q
-      | file x => exact wound (by rw [hl]; rfl) h
-      | symlink x => exact wound (by rw [hl]; rfl) h
-
-theorem symPass (s : Signed) (t0 : Tree) : ∀ (sl pre : List (Path × String)) (sw : List Wound),
-    s.symlinks = pre ++ sl → symlinkWounds t0 pre.length sl = .ok sw →
-    ∀ (rest : List Wound) (t : Tree) (q : List Nat), processWounds s (sw ++ rest) t q =
-      match healLeaves (woundedSyms t0 sl) t with
-      | .ok t' => processWounds s rest t' q
-      | .error err => .error err := by
-  intro sl
-  induction sl with
-  | nil =>
-    intro pre sw _ h rest t q
-    simp only [symlinkWounds, Outcome.ok.injEq] at h
-    subst h
-    rfl
-  | cons e sl ih =>
-    intro pre sw hsd h rest t q
-    obtain ⟨p, dest⟩ := e
-    have hidx : s.symlinks[pre.length]? = some (p, dest) := by rw [hsd]; simp
-    have hsd' : s.symlinks = (pre ++ [(p, dest)]) ++ sl := by simp [hsd]
-    have hlen : (pre ++ [(p, dest)]).length = pre.length + 1 := by simp
-    have wound : symOk dest (lstat t0 p) = false →
-        ((symlinkWounds t0 (pre.length + 1) sl).bind fun ws => .ok (⟨.symlink, pre.length, 0, 0⟩ :: ws)) = .ok sw →
-        processWounds s (sw ++ rest) t q =
-          match healLeaves (woundedSyms t0 ((p, dest) :: sl)) t with
-          | .ok t' => processWounds s rest t' q
-          | .error err => .error err := by
-      intro hw hb
-      obtain ⟨sw', h1, h2⟩ := outcome_bind_ok hb
-      simp only [Outcome.ok.injEq] at h2
-      subst h2
-      have hf : woundedSyms t0 ((p, dest) :: sl) = (p, .symlink dest) :: woundedSyms t0 sl := by
-        simp [woundedSyms, hw]
-      rw [hf, List.cons_append, processWounds]
-      simp only [hidx, bind, Except.bind, healLeaves, healLeaf]
-      cases healSymlink t p dest with
-      | error e => rfl
-      | ok t₁ =>
-        simp only
-        exact ih (pre ++ [(p, dest)]) sw' hsd' (by rw [hlen]; exact h1) rest t₁ q
-    unfold symlinkWounds at h
-    cases hl : lstat t0 p with
-    | error e =>
-      simp only [hl] at h
-      by_cases hn : notExist e = true
-      · simp only [hn, if_true] at h
-        exact wound (by rw [hl]; rfl) h
-      · simp only [hn] at h
-        cases h
-    | ok n =>
-      simp only [hl] at h
-      cases n with
-      | dir => exact wound (by rw [hl]; rfl) h
-      | file x => exact wound (by rw [hl]; rfl) h
-      | symlink x =>
-        by_cases hx : x = dest
-        · simp only [hx, if_true] at h
-          have hf : woundedSyms t0 ((p, dest) :: sl) = woundedSyms t0 sl := by
-            simp [woundedSyms, hl, symOk, hx]
-          rw [hf]
-          exact ih (pre ++ [(p, dest)]) sw hsd' (by rw [hlen]; exact h) rest t q
-        · simp only [hx, if_false] at h
-          exact wound (by rw [hl]; simp [symOk, hx]) h
-
-/-- the per-file pass only queues: the tree is untouched and the queue is the fold of `enqueue` -/
-theorem filePass_queue (s : Signed) : ∀ (fw : List Wound) (t : Tree) (q₀ : List Nat),
-    (∀ w ∈ fw, w.kind = .file ∨ w.kind = .closedFile) →
-    processWounds s fw t q₀ = .ok (t, (fileIdx fw).foldl enqueue q₀) := by
-  intro fw
-  induction fw with
-  | nil => intro t q₀ _; rfl
-  | cons w fw ih =>
-    intro t q₀ hk
-    have hk' : ∀ w' ∈ fw, w'.kind = .file ∨ w'.kind = .closedFile :=
-      fun w' hw' => hk w' (List.mem_cons_of_mem _ hw')
-    rw [processWounds]
-    rcases hk w (by simp) with h | h
-    · simp only [h]
-      rw [fileIdx_cons_file w fw h, List.foldl_cons]
-      exact ih t _ hk'
-    · simp only [h]
-      rw [fileIdx_cons_other w fw (by rw [h]; intro h'; cases h')]
-      exact ih t _ hk'
-
-theorem mem_foldl_enqueue (l : List Nat) : ∀ (q₀ : List Nat) (i : Nat),
-    i ∈ l.foldl enqueue q₀ ↔ i ∈ q₀ ∨ i ∈ l := by
-  induction l with
-  | nil => intro q₀ i; simp
-  | cons a l ih =>
-    intro q₀ i
-    rw [List.foldl_cons, ih, mem_enqueue]
-    simp only [List.mem_cons]
-    constructor
-    · rintro ((h | h) | h)
-      · exact .inl h
-      · exact .inr (.inl h)
-      · exact .inr (.inr h)
-    · rintro (h | h | h)
-      · exact .inl (.inl h)
-      · exact .inl (.inr h)
-      · exact .inr h
-
-theorem mem_fileIdx (ws : List Wound) (i : Nat) :
-    i ∈ fileIdx ws ↔ ∃ w ∈ ws, w.kind = .file ∧ w.index = i := by
-  simp [fileIdx, List.mem_map, List.mem_filter, and_assoc]
-
-/-- the `i`-th signed file as a leaf -/
-def fileLeaf (s : Signed) (i : Nat) : Option (Path × Node) :=
-  (s.files[i]?).map fun e => (e.1, Node.file e.2)
-
-theorem healFiles_eq (s : Signed) : ∀ (q : List Nat) (t : Tree), (∀ i ∈ q, i < s.files.length) →
-    healFiles s q t = healLeaves (q.filterMap (fileLeaf s)) t := by
-  intro q
-  induction q with
-  | nil => intro t _; rfl
-  | cons i q ih =>
-    intro t hq
-    have hi : i < s.files.length := hq i (by simp)
-    have hget : s.files[i]? = some s.files[i] := List.getElem?_eq_getElem hi
-    have hfl : fileLeaf s i = some ((s.files[i]).1, Node.file (s.files[i]).2) := by
-      simp [fileLeaf, hget]
-    rw [List.filterMap_cons, hfl]
-    simp only [healFiles, hget, healLeaves, healLeaf, bind, Except.bind]
-    cases healFile t (s.files[i]).1 (s.files[i]).2 with
-    | error e => rfl
-    | ok t₁ => exact ih t₁ (fun j hj => hq j (List.mem_cons_of_mem _ hj))
-
-/-- Validation followed by healing, as: heal the wounded directories in order, then a list `L` of wounded
-    symlinks and files; every signed symlink or file NOT in `L` was found intact by the validator. -/
-theorem validateAndHeal_decomp (bs : Nat) (hbs : 0 < bs) (maxSize : Nat) (s : Signed) (t0 : Tree)
-    (ws : List Wound) (hv : validate bs maxSize s t0 = .ok ws) :
-    ∃ L, (∀ e ∈ L, e ∈ leaves s) ∧ (∀ e ∈ leaves s, e ∉ L → lstat t0 e.1 = .ok e.2) ∧
-      validateAndHeal bs maxSize s t0 =
-        match healDirs (woundedDirs t0 s.dirs) t0 with
-        | .ok t₁ =>
-          (match healLeaves L t₁ with
-           | .ok t₂ => .ok t₂
-           | .error _ => .err "healer failed")
-        | .error _ => .err "healer failed" := by
-  have hv' := hv
-  unfold validate at hv'
-  obtain ⟨dw, hdw, hv'⟩ := outcome_bind_ok hv'
-  obtain ⟨sw, hsw, hv'⟩ := outcome_bind_ok hv'
-  simp only [Outcome.ok.injEq] at hv'
-  generalize hfw : filePassWounds bs maxSize t0 0 s.files = fw at hv'
-  have hkind : ∀ w ∈ fw, w.kind = .file ∨ w.kind = .closedFile := by
-    intro w hw
-    rw [← hfw] at hw
-    obtain ⟨j, p, S, _, hw⟩ := (mem_filePassWounds bs maxSize t0 w s.files 0).mp hw
-    exact fileWounds_kind bs hbs maxSize S (0 + j) (onDisk t0 p) w hw
-  let q := (fileIdx fw).foldl enqueue []
-  have hq : ∀ i, i ∈ q ↔ ∃ w ∈ fw, w.kind = .file ∧ w.index = i := by
-    intro i
-    rw [mem_foldl_enqueue, mem_fileIdx]
-    simp
-  have hqlt : ∀ i ∈ q, i < s.files.length := by
-    intro i hi
-    obtain ⟨w, hw, _, hwi⟩ := (hq i).mp hi
-    rw [← hfw] at hw
-    obtain ⟨j, p, S, hj, hw⟩ := (mem_filePassWounds bs maxSize t0 w s.files 0).mp hw
-    have := (C05.file_wellformed bs hbs maxSize S (0 + j) (onDisk t0 p) w hw).2
-    have hlt : j < s.files.length := (List.getElem?_eq_some_iff.mp hj).1
-    omega
-  refine ⟨woundedSyms t0 s.symlinks ++ q.filterMap (fileLeaf s), ?_, ?_, ?_⟩
-  · intro e he
-    rcases List.mem_append.mp he with he | he
-    · simp only [woundedSyms, List.mem_map, List.mem_filter] at he
-      obtain ⟨x, ⟨hx, _⟩, rfl⟩ := he
-      simp only [leaves, List.mem_append, List.mem_map]
-      exact .inl ⟨x, hx, rfl⟩
-    · simp only [List.mem_filterMap, fileLeaf, Option.map_eq_some_iff] at he
-      obtain ⟨i, _, x, hx, rfl⟩ := he
-      simp only [leaves, List.mem_append, List.mem_map]
-      exact .inr ⟨x, List.mem_of_getElem? hx, rfl⟩
-  · intro e he hnot
-    rw [List.mem_append, not_or] at hnot
-    rcases mem_leaves he with ⟨x, hx, rfl⟩ | ⟨x, hx, rfl⟩
-    · have h1 := hnot.1
-      simp only [woundedSyms, List.mem_map, List.mem_filter, not_exists, not_and] at h1
-      apply (symOk_iff x.2 _).mp
-      cases hso : symOk x.2 (lstat t0 x.1) with
-      | true => rfl
-      | false =>
-        exfalso
-        exact h1 x ⟨hx, by simp [hso]⟩ rfl
-    · obtain ⟨i, hi⟩ := List.getElem?_of_mem hx
-      have hiq : i ∉ q := by
-        intro hi'
-        apply hnot.2
-        simp only [List.mem_filterMap, fileLeaf, Option.map_eq_some_iff]
-        exact ⟨i, hi', x, hi, rfl⟩
-      apply Classical.byContradiction
-      intro hne
-      obtain ⟨w, hw, hk, hwi⟩ := filePass_detects bs hbs maxSize t0 0 s.files i x.1 x.2 hi hne
-      rw [hfw] at hw
-      exact hiq ((hq i).mpr ⟨w, hw, hk, by omega⟩)
-  · unfold validateAndHeal
-    rw [hv]
-    simp only
-    rw [← hv', List.append_assoc, dirPass s t0 s.dirs [] dw rfl hdw]
-    cases healDirs (woundedDirs t0 s.dirs) t0 with
-    | error e => rfl
-    | ok t₁ =>
-      simp only
-      rw [symPass s t0 s.symlinks [] sw rfl hsw, healLeaves_append]
-      cases healLeaves (woundedSyms t0 s.symlinks) t₁ with
-      | error e => rfl
-      | ok t₂ =>
-        simp only
-        rw [filePass_queue s fw t₂ [] hkind]
-        simp only
-        rw [healFiles_eq s _ t₂ hqlt]
-        cases healLeaves (List.filterMap (fileLeaf s) q) t₂ <;> rfl
-
-/-! ### assembly -/
+/-! ### prefixes, parents-first listing -/
 
 theorem prefix_cases {q d : Path} (h : q <+: d) : q = d ∨ isPrefix q d = true := by
   have hle := h.length_le
@@ -1348,110 +851,437 @@ theorem noSymDirs_of_lstat {s : Signed} (hs : WF s) {t : Tree} (hI : TInv t)
   intro d hd x hx
   exact hno d hd x (lstat_of_get hI (hs.nodd (mem_allPaths_dir hd)) hx)
 
-theorem woundedDirs_sub {t0 : Tree} {ps : List Path} : ∀ d ∈ woundedDirs t0 ps, d ∈ ps := by
-  intro d hd
-  exact (List.mem_filter.mp hd).1
-
-/-- after the directory heals every signed directory is a directory -/
-theorem allDirs_after {s : Signed} (hs : WF s) {t0 t₁ : Tree} (hn : NoSymDirs s t0)
-    (hW : ∀ d ∈ woundedDirs t0 s.dirs, IsDir t₁ d) (hmono : ∀ q, IsDir t0 q → IsDir t₁ q) : AllDirs s t₁ := by
-  intro d hd
-  by_cases hw : d ∈ woundedDirs t0 s.dirs
-  · exact hW d hw
-  · simp only [woundedDirs, List.mem_filter, not_and, Bool.not_eq_true', Bool.not_eq_false] at hw
-    have := (isDirOk_iff _).mp (by simpa using hw hd)
-    exact hmono d (lstat_plain (hs.plain hn (mem_allPaths_dir hd)) this).1
-
-/-- The healed tree: invariant, every signed directory a directory, every signed symlink and file exactly as
-    signed, and everything unrelated to the signed paths untouched. -/
-theorem restore_main (bs : Nat) (hbs : 0 < bs) (maxSize : Nat) (s : Signed) (t0 t' : Tree)
-    (hs : WF s) (hI : TInv t0) (hn : NoSymDirs s t0) (h : validateAndHeal bs maxSize s t0 = .ok t') :
-    TInv t' ∧ AllDirs s t' ∧ (∀ e ∈ leaves s, t'.get e.1 = some e.2) ∧
-      (∀ q, (∀ p ∈ allPaths s, p ≠ q ∧ isPrefix p q = false ∧ isPrefix q p = false) → t'.get q = t0.get q) := by
-  cases hv : validate bs maxSize s t0 with
-  | err e => simp [validateAndHeal, hv] at h
-  | panic e => simp [validateAndHeal, hv] at h
-  | ok ws =>
-    obtain ⟨L, hL, hint, heq⟩ := validateAndHeal_decomp bs hbs maxSize s t0 ws hv
-    rw [heq] at h
-    cases hd : healDirs (woundedDirs t0 s.dirs) t0 with
-    | error e => simp [hd] at h
-    | ok t₁ =>
-      simp only [hd] at h
-      obtain ⟨b1, _, b3, b4, b5, b6⟩ :=
-        healDirs_spec hs _ t0 t₁ (fun d hd => woundedDirs_sub d hd) hI hn hd
-      have hA₁ := allDirs_after hs hn b3 b4
-      obtain ⟨t₂, h₂, c1, c2, c3, c4⟩ := healLeaves_spec hs L t₁ hL b1 hA₁
-      simp only [h₂, Outcome.ok.injEq] at h
-      subst h
-      refine ⟨c1, c2, ?_, ?_⟩
-      · intro e he
-        by_cases heL : e ∈ L
-        · exact c4 e heL
-        · have hp := leaf_mem_allPaths he
-          have h0 := (lstat_plain (hs.plain hn hp) (hint e he heL)).1
-          have h1 := b5 e.1 e.2 (hs.leaf_not_dir he) h0
-          rw [c3 e.1]
-          · exact h1
-          · intro b hb
-            refine ⟨fun hbe => heL ?_, hs.leaf_not_below (hL b hb) hp⟩
-            have := hs.leaf_fun he (hL b hb) hbe
-            rw [this]; exact hb
-      · intro q hq
-        rw [c3 q, b6 q]
-        · intro d hd hpre
-          have hq' := hq d (mem_allPaths_dir (woundedDirs_sub d hd))
-          rcases prefix_cases hpre with h | h
-          · exact hq'.1 h.symm
-          · rw [hq'.2.2] at h; cases h
-        · intro e he
-          have hq' := hq e.1 (leaf_mem_allPaths (hL e he))
-          exact ⟨fun h => hq'.1 h.symm, hq'.2.1⟩
-
 /-- directories are listed parents-first (mirrors `Wharf.C06.ParentsFirst`) -/
 def PFirst (s : Signed) : Prop :=
   ∀ i (h : i < s.dirs.length), ∀ j, 0 < j → j < (s.dirs[i]).length → (s.dirs[i]).take j ∈ s.dirs.take i
 
-theorem ready_of_pfirst {s : Signed} (hs : WF s) (hpf : PFirst s) {t0 : Tree} (hn : NoSymDirs s t0) :
-    Ready t0 (woundedDirs t0 s.dirs) := by
-  intro W₁ d W₂ hW j hj1 hj2
-  unfold woundedDirs at hW
-  obtain ⟨l₁, l₂, hl, hf₁, hf₂⟩ := List.filter_eq_append_iff.mp hW
-  obtain ⟨l₃, l₄, hl₂, hnot, _, _⟩ := List.filter_eq_cons_iff.mp hf₂
-  have hsd : s.dirs = (l₁ ++ l₃) ++ d :: l₄ := by rw [hl, hl₂]; simp
-  have hi : (l₁ ++ l₃).length < s.dirs.length := by rw [hsd]; simp
-  have hgi : s.dirs[(l₁ ++ l₃).length] = d := by
-    have : s.dirs[(l₁ ++ l₃).length]? = some d := by rw [hsd]; simp
-    exact (List.getElem?_eq_some_iff.mp this).2
-  have := hpf _ hi j hj1 (by rw [hgi]; exact hj2)
-  rw [hgi] at this
-  have htake : s.dirs.take (l₁ ++ l₃).length = l₁ ++ l₃ := by
-    rw [hsd]; exact List.take_left
-  rw [htake] at this
-  have hmem : d.take j ∈ s.dirs := by rw [hsd]; exact List.mem_append_left _ this
-  have intact : isDirOk (lstat t0 (d.take j)) = true → IsDir t0 (d.take j) := by
-    intro h
-    exact (lstat_plain (hs.plain hn (mem_allPaths_dir hmem)) ((isDirOk_iff _).mp h)).1
-  cases hok : isDirOk (lstat t0 (d.take j)) with
-  | true => exact .inl (intact hok)
-  | false =>
-    rcases List.mem_append.mp this with h | h
-    · right
-      rw [← hf₁]
-      exact List.mem_filter.mpr ⟨h, by simp [hok]⟩
-    · exact absurd (by simp [hok]) (hnot _ h)
+/-! ### healing a directory that something else had replaced: `healBelow` -/
 
-theorem complete_main (bs : Nat) (hbs : 0 < bs) (maxSize : Nat) (s : Signed) (t0 : Tree) (ws : List Wound)
-    (hs : WF s) (hpf : PFirst s) (hI : TInv t0) (hn : NoSymDirs s t0)
-    (hv : validate bs maxSize s t0 = .ok ws) : ∃ t', validateAndHeal bs maxSize s t0 = .ok t' := by
-  obtain ⟨L, hL, _, heq⟩ := validateAndHeal_decomp bs hbs maxSize s t0 ws hv
-  obtain ⟨t₁, hd⟩ := healDirs_ok hs _ t0 (fun d hd => woundedDirs_sub d hd) hI hn (ready_of_pfirst hs hpf hn)
-  obtain ⟨b1, _, b3, b4, _, _⟩ :=
-    healDirs_spec hs _ t0 t₁ (fun d hd => woundedDirs_sub d hd) hI hn hd
-  obtain ⟨t₂, h₂, _⟩ := healLeaves_spec hs L t₁ hL b1 (allDirs_after hs hn b3 b4)
-  exact ⟨t₂, by rw [heq]; simp only [hd, h₂]⟩
+theorem isPrefix_prefix {p x : Path} (h : isPrefix p x = true) : p <+: x := by
+  rw [isPrefix_iff] at h
+  rw [← h.2]
+  exact List.take_prefix _ _
 
-/-! ### the F15 witness (a signed directory replaced by a symlink)
+theorem isPrefix_ne {p x : Path} (h : isPrefix p x = true) : x ≠ p := by
+  intro he; subst he; simp [isPrefix] at h
+
+theorem isPrefix_irrefl (p : Path) : isPrefix p p = false := by simp [isPrefix]
+
+/-- a prefix of something below `p` is a prefix of `p` or lies below `p` -/
+theorem prefix_below_cases {p d x : Path} (hd : isPrefix p d = true) (hx : x <+: d) :
+    x <+: p ∨ isPrefix p x = true := by
+  rcases List.prefix_or_prefix_of_prefix hx (isPrefix_prefix hd) with h | h
+  · exact .inl h
+  · rcases prefix_cases h with h' | h'
+    · left; rw [h']; exact List.prefix_refl _
+    · exact .inr h'
+
+/-- the tree while `healBelow(p)` runs, relative to the tree `t` in which something else stood at `p`: `p` is a
+    directory, nothing outside `p` has changed, and below `p` there is nothing but signed directories (as
+    directories) and what stands at or below signed symlink paths -/
+structure Below (s : Signed) (t : Tree) (p : Path) (t' : Tree) : Prop where
+  tinv : TInv t'
+  self : IsDir t' p
+  outside : ∀ x, x ≠ p → isPrefix p x = false → t'.get x = t.get x
+  inside : ∀ x, isPrefix p x = true →
+    t'.get x = none ∨ (IsDir t' x ∧ x ∈ s.dirs) ∨ ∃ l ∈ s.symlinks.map (·.1), l = x ∨ isPrefix l x = true
+
+theorem WF.dir_not_symPath {s : Signed} (hs : WF s) {d : Path} (hd : d ∈ s.dirs) :
+    ¬ ∃ l ∈ s.symlinks.map (·.1), l = d ∨ isPrefix l d = true := by
+  rintro ⟨l, hl, hld⟩
+  obtain ⟨e, he, rfl⟩ := List.mem_map.mp hl
+  have hleaf : (e.1, Node.symlink e.2) ∈ leaves s := by
+    simp only [leaves, List.mem_append, List.mem_map]
+    exact .inl ⟨e, he, rfl⟩
+  rcases hld with h | h
+  · exact hs.leaf_not_dir hleaf (h ▸ hd)
+  · have := hs.leaf_not_below hleaf (mem_allPaths_dir hd)
+    simp only at this
+    rw [this] at h; cases h
+
+/-- while `healBelow(p)` runs, a signed directory below `p` has no symlink on the way and is missing or a
+    directory -/
+theorem Below.plain_dir {s : Signed} (hs : WF s) {t t₁ : Tree} {p d : Path} (hB : Below s t p t₁)
+    (hd : d ∈ s.dirs) (hpd : isPrefix p d = true) :
+    Plain t₁ d ∧ (t₁.get d = none ∨ IsDir t₁ d) := by
+  have key : ∀ x, x ∈ s.dirs → isPrefix p x = true → t₁.get x = none ∨ IsDir t₁ x := by
+    intro x hx hpx
+    rcases hB.inside x hpx with h | h | h
+    · exact .inl h
+    · exact .inr h.1
+    · exact absurd h (hs.dir_not_symPath hx)
+  refine ⟨⟨hs.nodd (mem_allPaths_dir hd), ?_⟩, key d hd hpd⟩
+  intro j hj1 hj2 y hy
+  rcases prefix_below_cases hpd (List.take_prefix j d) with h | h
+  · have := prefix_dirs hB.tinv _ p rfl hB.self (d.take j).length
+    rw [← List.prefix_iff_eq_take.mp h, IsDir, hy] at this
+    cases this
+  · rcases key _ (hs.parents d (mem_allPaths_dir hd) j (by omega) hj2) h with h' | h'
+    · rw [h'] at hy; cases hy
+    · rw [IsDir, hy] at h'; cases h'
+
+/-- A directory wound for a signed directory below `p` while `healBelow(p)` runs: nothing can stand in its way;
+    it is there already, or `MkdirAll` creates it (and missing signed directories between `p` and it). -/
+theorem Below.dirWound {s : Signed} (hs : WF s) {t t₁ t₂ : Tree} {p d : Path} (hB : Below s t p t₁)
+    (hd : d ∈ s.dirs) (hpd : isPrefix p d = true) (k : Nat) {q q₂ : List Nat}
+    (h : healDir s (k + 1) t₁ q d = .ok (t₂, q₂)) :
+    Below s t p t₂ ∧ q₂ = q ∧ IsDir t₂ d ∧ (∀ x, IsDir t₁ x → IsDir t₂ x) := by
+  obtain ⟨hpl, hnd⟩ := hB.plain_dir hs hd hpd
+  rcases healDir_cases s hB.tinv hpl k q with ⟨h1, h2⟩ | ⟨h1, h2, h3⟩ | ⟨n, hn, hg, _⟩
+  · rw [h2] at h
+    simp only [Except.ok.injEq, Prod.mk.injEq] at h
+    obtain ⟨rfl, rfl⟩ := h
+    exact ⟨hB, rfl, h1, fun _ hx => hx⟩
+  · rw [h3] at h
+    cases hm : mkdirs t₁ d with
+    | error e => simp [hm] at h
+    | ok t₃ =>
+      simp only [hm, Except.ok.injEq, Prod.mk.injEq] at h
+      obtain ⟨rfl, rfl⟩ := h
+      obtain ⟨a1, a2, a3, a4⟩ := mkdirs_spec hB.tinv h1 hm
+      have hmono : ∀ x, IsDir t₁ x → IsDir t₃ x := fun x hx => a3 x _ hx
+      refine ⟨⟨a1, hmono p hB.self, ?_, ?_⟩, rfl, a2 d (List.prefix_refl _), hmono⟩
+      · intro x hxp hxb
+        rw [← hB.outside x hxp hxb]
+        by_cases hxd : x <+: d
+        · rcases prefix_below_cases hpd hxd with h' | h'
+          · have hdx : IsDir t₁ x := by
+              have := prefix_dirs hB.tinv _ p rfl hB.self x.length
+              rwa [← List.prefix_iff_eq_take.mp h'] at this
+            rw [show t₃.get x = some .dir from hmono x hdx, show t₁.get x = some .dir from hdx]
+          · rw [hxb] at h'; cases h'
+        · exact a4 x hxd
+      · intro x hpx
+        by_cases hxd : x <+: d
+        · right; left
+          refine ⟨a2 x hxd, ?_⟩
+          rcases prefix_cases hxd with h' | h'
+          · rw [h']; exact hd
+          · rw [isPrefix_iff] at h'
+            rw [← h'.2]
+            have hx0 : 0 < x.length := by
+              rw [isPrefix_iff] at hpx; omega
+            exact hs.parents d (mem_allPaths_dir hd) x.length hx0 h'.1
+        · rw [a4 x hxd]
+          rcases hB.inside x hpx with h' | h' | h'
+          · exact .inl h'
+          · exact .inr (.inl ⟨hmono x h'.1, h'.2⟩)
+          · exact .inr (.inr h')
+  · exfalso
+    rcases hnd with h' | h'
+    · rw [h'] at hg; cases hg
+    · rw [IsDir, hg] at h'; cases h'; exact hn rfl
+
+/-- first loop of `healBelow(p)`: every signed directory below `p` ends up a directory, the queue is untouched -/
+theorem Below.dirsLoop {s : Signed} (hs : WF s) {t : Tree} {p : Path} (k : Nat) :
+    ∀ (ds : List Path) (t₁ t₂ : Tree) (q q₂ : List Nat), (∀ d ∈ ds, d ∈ s.dirs) → Below s t p t₁ →
+      healDirsBelow (healDir s (k + 1)) p ds t₁ q = .ok (t₂, q₂) →
+      Below s t p t₂ ∧ q₂ = q ∧ (∀ x, IsDir t₁ x → IsDir t₂ x) ∧
+        ∀ d ∈ ds, isPrefix p d = true → IsDir t₂ d := by
+  intro ds
+  induction ds with
+  | nil =>
+    intro t₁ t₂ q q₂ _ hB h
+    simp only [healDirsBelow, Except.ok.injEq, Prod.mk.injEq] at h
+    obtain ⟨rfl, rfl⟩ := h
+    exact ⟨hB, rfl, fun _ hx => hx, by simp⟩
+  | cons d ds ih =>
+    intro t₁ t₂ q q₂ hds hB h
+    have hds' : ∀ d' ∈ ds, d' ∈ s.dirs := fun d' hd' => hds d' (List.mem_cons_of_mem _ hd')
+    simp only [healDirsBelow] at h
+    by_cases hb : isPrefix p d = true
+    · rw [if_pos hb] at h
+      cases hr : healDir s (k + 1) t₁ q d with
+      | error e => simp [hr] at h
+      | ok r =>
+        obtain ⟨t₃, q₃⟩ := r
+        simp only [hr] at h
+        obtain ⟨b1, rfl, b3, b4⟩ := hB.dirWound hs (hds d (by simp)) hb k hr
+        obtain ⟨c1, c2, c3, c4⟩ := ih t₃ t₂ q₃ q₂ hds' b1 h
+        refine ⟨c1, c2, fun x hx => c3 x (b4 x hx), ?_⟩
+        intro d' hd' hpd'
+        rcases List.mem_cons.mp hd' with rfl | hd'
+        · exact c3 _ b3
+        · exact c4 d' hd' hpd'
+    · rw [if_neg hb] at h
+      obtain ⟨c1, c2, c3, c4⟩ := ih t₁ t₂ q q₂ hds' hB h
+      refine ⟨c1, c2, c3, ?_⟩
+      intro d' hd' hpd'
+      rcases List.mem_cons.mp hd' with rfl | hd'
+      · exact absurd hpd' hb
+      · exact c4 d' hd' hpd'
+
+/-- with parents-first listing the first loop of `healBelow(p)` cannot fail -/
+theorem Below.dirsLoop_ok {s : Signed} (hs : WF s) (hpf : PFirst s) {t : Tree} {p : Path} (k : Nat) :
+    ∀ (ds pre : List Path) (t₁ : Tree) (q : List Nat), s.dirs = pre ++ ds → Below s t p t₁ →
+      (∀ d ∈ pre, isPrefix p d = true → IsDir t₁ d) →
+      ∃ t₂ q₂, healDirsBelow (healDir s (k + 1)) p ds t₁ q = .ok (t₂, q₂) := by
+  intro ds
+  induction ds with
+  | nil => intro pre t₁ q _ _ _; exact ⟨t₁, q, rfl⟩
+  | cons d ds ih =>
+    intro pre t₁ q hsd hB hpre
+    have hd : d ∈ s.dirs := by rw [hsd]; simp
+    have hsd' : s.dirs = (pre ++ [d]) ++ ds := by simp [hsd]
+    simp only [healDirsBelow]
+    by_cases hb : isPrefix p d = true
+    · rw [if_pos hb]
+      obtain ⟨hpl, hnd⟩ := hB.plain_dir hs hd hb
+      -- the parent of `d` is `p` or a signed directory below `p` listed before `d`
+      have hpar : IsDir t₁ d.dropLast := by
+        have hb' := hb
+        rw [isPrefix_iff] at hb'
+        by_cases hl : d.length = p.length + 1
+        · have : d.dropLast = p := by
+            rw [List.dropLast_eq_take, ← hb'.2]; congr 1; omega
+          rw [this]; exact hB.self
+        · have hi : pre.length < s.dirs.length := by rw [hsd]; simp
+          have hgi : s.dirs[pre.length] = d := by
+            have : s.dirs[pre.length]? = some d := by rw [hsd]; simp
+            exact (List.getElem?_eq_some_iff.mp this).2
+          have hm := hpf _ hi (d.length - 1) (by omega) (by rw [hgi]; omega)
+          rw [hgi, ← List.dropLast_eq_take] at hm
+          have htake : s.dirs.take pre.length = pre := by rw [hsd]; exact List.take_left
+          rw [htake] at hm
+          refine hpre _ hm ?_
+          rw [isPrefix_iff]
+          refine ⟨by simp; omega, ?_⟩
+          rw [List.dropLast_eq_take, List.take_take, Nat.min_eq_left (by omega)]
+          exact hb'.2
+      have hstep : ∃ t₃, healDir s (k + 1) t₁ q d = .ok (t₃, q) := by
+        rcases healDir_cases s hB.tinv hpl k q with ⟨_, h2⟩ | ⟨_, h2, h3⟩ | ⟨n, hn, hg, _⟩
+        · exact ⟨t₁, h2⟩
+        · have hg : t₁.get d = none := by
+            rcases hnd with h' | h'
+            · exact h'
+            · exact absurd h' h2
+          have hfresh : Fresh t₁ d := by
+            refine ⟨(hs.clean d (mem_allPaths_dir hd)).1, ?_, hpar,
+              fun h => hs.nodd (mem_allPaths_dir hd) (mem_of_mem_dropLast h)⟩
+            intro e he hed
+            have := hB.tinv.get e he
+            rw [hed, hg] at this
+            cases this
+          rw [h3, mkdirs_new hB.tinv hfresh]
+          exact ⟨_, rfl⟩
+        · exfalso
+          rcases hnd with h' | h'
+          · rw [h'] at hg; cases hg
+          · rw [IsDir, hg] at h'; cases h'; exact hn rfl
+      obtain ⟨t₃, hr⟩ := hstep
+      obtain ⟨b1, _, b3, b4⟩ := hB.dirWound hs hd hb k hr
+      rw [hr]
+      simp only
+      refine ih (pre ++ [d]) t₃ q hsd' b1 ?_
+      intro d' hd' hpd'
+      rcases List.mem_append.mp hd' with hd' | hd'
+      · exact b4 _ (hpre d' hd' hpd')
+      · rw [List.mem_singleton] at hd'; subst hd'; exact b3
+    · rw [if_neg hb]
+      refine ih (pre ++ [d]) t₁ q hsd' hB ?_
+      intro d' hd' hpd'
+      rcases List.mem_append.mp hd' with hd' | hd'
+      · exact hpre d' hd' hpd'
+      · rw [List.mem_singleton] at hd'; subst hd'; exact absurd hpd' hb
+
+theorem sym_leaf' {s : Signed} {e : Path × String} (h : e ∈ s.symlinks) :
+    (e.1, Node.symlink e.2) ∈ leaves s := by
+  simp only [leaves, List.mem_append, List.mem_map]
+  exact .inl ⟨e, h, rfl⟩
+
+/-- second loop of `healBelow(p)`, run with every signed directory below `p` in place: it cannot fail, and every
+    signed symlink below `p` ends up as signed -/
+theorem Below.symsLoop {s : Signed} (hs : WF s) {t : Tree} {p : Path} (hp : p ∈ s.dirs) :
+    ∀ (ls : List (Path × String)) (t₁ : Tree), (∀ e ∈ ls, e ∈ s.symlinks) → Below s t p t₁ →
+      (∀ d ∈ s.dirs, isPrefix p d = true → IsDir t₁ d) →
+      ∃ t₂, healSymlinksBelow p ls t₁ = .ok t₂ ∧ Below s t p t₂ ∧
+        (∀ d ∈ s.dirs, isPrefix p d = true → IsDir t₂ d) ∧
+        (∀ e ∈ s.symlinks, t₁.get e.1 = some (.symlink e.2) → t₂.get e.1 = some (.symlink e.2)) ∧
+        ∀ e ∈ ls, isPrefix p e.1 = true → t₂.get e.1 = some (.symlink e.2) := by
+  intro ls
+  induction ls with
+  | nil => intro t₁ _ hB hA; exact ⟨t₁, rfl, hB, hA, fun _ _ h => h, by simp⟩
+  | cons e ls ih =>
+    intro t₁ hls hB hA
+    obtain ⟨l, dest⟩ := e
+    have hls' : ∀ e' ∈ ls, e' ∈ s.symlinks := fun e' he' => hls e' (List.mem_cons_of_mem _ he')
+    have he : (l, dest) ∈ s.symlinks := hls _ (by simp)
+    have hleaf := sym_leaf' he
+    have hm := leaf_mem_allPaths hleaf
+    simp only [healSymlinksBelow]
+    by_cases hb : isPrefix p l = true
+    · rw [if_pos hb]
+      have hb' := hb
+      rw [isPrefix_iff] at hb'
+      have hp0 : 0 < p.length := List.length_pos_iff.mpr (hs.clean p (mem_allPaths_dir hp)).1
+      -- the parent of the symlink is `p` or a signed directory below `p`
+      have hpar : IsDir t₁ l.dropLast := by
+        by_cases hl : l.length = p.length + 1
+        · have : l.dropLast = p := by
+            rw [List.dropLast_eq_take, ← hb'.2]; congr 1; omega
+          rw [this]; exact hB.self
+        · have hmem := hs.parents l hm (l.length - 1) (by omega) (by omega)
+          rw [← List.dropLast_eq_take] at hmem
+          refine hA _ hmem ?_
+          rw [isPrefix_iff]
+          refine ⟨by simp; omega, ?_⟩
+          rw [List.dropLast_eq_take, List.take_take, Nat.min_eq_left (by omega)]
+          exact hb'.2
+      obtain ⟨t₃, h3, hst⟩ := healSymlink_step hB.tinv (hs.clean l hm).1 (hs.nodd hm) hpar dest
+      have hlp : l ≠ p := isPrefix_ne hb
+      have hnlp : isPrefix l p = false := hs.leaf_not_below hleaf (mem_allPaths_dir hp)
+      have hB₃ : Below s t p t₃ := by
+        refine ⟨hst.tinv, ?_, ?_, ?_⟩
+        · rw [IsDir, hst.other p (fun h => hlp h.symm) hnlp]; exact hB.self
+        · intro x hxp hxb
+          rw [hst.other x, hB.outside x hxp hxb]
+          · intro h; rw [h, hb] at hxb; cases hxb
+          · cases hlx : isPrefix l x with
+            | false => rfl
+            | true => rw [isPrefix_trans' hb hlx] at hxb; cases hxb
+        · intro x hpx
+          by_cases hxl : x = l
+          · exact .inr (.inr ⟨l, List.mem_map.mpr ⟨_, he, rfl⟩, .inl hxl.symm⟩)
+          · cases hlx : isPrefix l x with
+            | true => exact .inr (.inr ⟨l, List.mem_map.mpr ⟨_, he, rfl⟩, .inr hlx⟩)
+            | false =>
+              rw [hst.other x hxl hlx]
+              rcases hB.inside x hpx with h' | h' | h'
+              · exact .inl h'
+              · right; left
+                refine ⟨?_, h'.2⟩
+                rw [IsDir, hst.other x hxl hlx]; exact h'.1
+              · exact .inr (.inr h')
+      have hA₃ : ∀ d ∈ s.dirs, isPrefix p d = true → IsDir t₃ d := by
+        intro d hd hpd
+        rw [IsDir, hst.other d (fun h => hs.leaf_not_dir hleaf (h ▸ hd))
+          (hs.leaf_not_below hleaf (mem_allPaths_dir hd))]
+        exact hA d hd hpd
+      have hkeep : ∀ e' ∈ s.symlinks, t₁.get e'.1 = some (.symlink e'.2) →
+          t₃.get e'.1 = some (.symlink e'.2) := by
+        intro e' he' hg
+        by_cases hpe : e'.1 = l
+        · have := hs.leaf_fun (sym_leaf' he') hleaf hpe
+          simp only [Prod.mk.injEq] at this
+          rw [hpe]
+          have h2 : e'.2 = dest := by
+            have := this.2; injection this
+          rw [h2]; exact hst.at_
+        · rw [hst.other e'.1 hpe (hs.leaf_not_below hleaf (leaf_mem_allPaths (sym_leaf' he')))]
+          exact hg
+      obtain ⟨t₂, c1, c2, c3, c4, c5⟩ := ih t₃ hls' hB₃ hA₃
+      refine ⟨t₂, by rw [h3]; exact c1, c2, c3, fun e' he' hg => c4 e' he' (hkeep e' he' hg), ?_⟩
+      intro e' he' hpe'
+      rcases List.mem_cons.mp he' with rfl | he'
+      · exact c4 _ he hst.at_
+      · exact c5 e' he' hpe'
+    · rw [if_neg hb]
+      obtain ⟨t₂, c1, c2, c3, c4, c5⟩ := ih t₁ hls' hB hA
+      refine ⟨t₂, c1, c2, c3, c4, ?_⟩
+      intro e' he' hpe'
+      rcases List.mem_cons.mp he' with rfl | he'
+      · exact absurd hpe' hb
+      · exact c5 e' he' hpe'
+
+/-- the tree right after `Remove`, `MkdirAll` satisfies the loop invariant of `healBelow` -/
+theorem below_start {s : Signed} {t : Tree} (hI : TInv t) {p : Path} (hne : p ≠ []) (hdd : ".." ∉ p)
+    (hpar : IsDir t p.dropLast) {n : Node} (hg : t.get p = some n) (hn : n ≠ .dir) :
+    Below s t p ((t.erase p).set p .dir) := by
+  obtain ⟨_, _, hI₂, hget⟩ := replace_by_dir hI hne hdd hpar hg hn
+  have hnd : ¬ IsDir t p := by rw [IsDir, hg]; intro h; cases h; exact hn rfl
+  refine ⟨hI₂, by rw [IsDir, hget, if_pos rfl], ?_, ?_⟩
+  · intro x hxp _
+    rw [hget, if_neg hxp]
+  · intro x hpx
+    left
+    rw [hget, if_neg (isPrefix_ne hpx)]
+    exact get_below_none hI hnd hpx
+
+/-- THE REPAIR OF F15.  A directory wound for the signed directory `p` that finds something else standing at `p`
+    (the parent of `p` being a directory): whenever the call returns, `p` and every signed directory below it are
+    directories, every signed symlink below it is as signed, every signed file below it is queued, nothing
+    outside `p` has changed, and below `p` there is nothing but signed directories and signed symlinks.
+    The recursion never goes deeper than one nested level (`k + 2` suffices). -/
+theorem healDir_replaced {s : Signed} (hs : WF s) {t : Tree} (hI : TInv t) {p : Path} (hp : p ∈ s.dirs)
+    (hpar : IsDir t p.dropLast) {n : Node} (hg : t.get p = some n) (hn : n ≠ .dir) (k : Nat) (q : List Nat)
+    {t' : Tree} {q' : List Nat} (h : healDir s (k + 2) t q p = .ok (t', q')) :
+    Below s t p t' ∧ (∀ d ∈ s.dirs, isPrefix p d = true → IsDir t' d) ∧
+      (∀ e ∈ s.symlinks, isPrefix p e.1 = true → t'.get e.1 = some (.symlink e.2)) ∧
+      q' = queueFilesBelow p 0 s.files q := by
+  have hne : p ≠ [] := (hs.clean p (mem_allPaths_dir hp)).1
+  have hdd : ".." ∉ p := hs.nodd (mem_allPaths_dir hp)
+  obtain ⟨hrm, hmk, _, _⟩ := replace_by_dir hI hne hdd hpar hg hn
+  have hB₀ : Below s t p ((t.erase p).set p .dir) := below_start hI hne hdd hpar hg hn
+  have hl : lstat t p = .ok n := lstat_of_get hI hdd hg
+  have hunf : healDir s (k + 2) t q p =
+      match healDirsBelow (healDir s (k + 1)) p s.dirs ((t.erase p).set p .dir) q with
+      | .error e => .error e
+      | .ok (t₃, q₃) =>
+        match healSymlinksBelow p s.symlinks t₃ with
+        | .error e => .error e
+        | .ok t₄ => .ok (t₄, queueFilesBelow p 0 s.files q₃) := by
+    rw [healDir]
+    cases n with
+    | dir => exact absurd rfl hn
+    | file x => simp only [hl, hrm, hmk]; rfl
+    | symlink x => simp only [hl, hrm, hmk]; rfl
+  rw [hunf] at h
+  cases hd : healDirsBelow (healDir s (k + 1)) p s.dirs ((t.erase p).set p .dir) q with
+  | error e => simp [hd] at h
+  | ok r =>
+    obtain ⟨t₃, q₃⟩ := r
+    simp only [hd] at h
+    obtain ⟨b1, rfl, _, b4⟩ := hB₀.dirsLoop hs k s.dirs _ t₃ q q₃ (fun _ h => h) hd
+    obtain ⟨t₄, c0, c1, c2, _, c4⟩ := b1.symsLoop hs hp s.symlinks t₃ (fun _ h => h) b4
+    simp only [c0, Except.ok.injEq, Prod.mk.injEq] at h
+    obtain ⟨rfl, rfl⟩ := h
+    exact ⟨c1, c2, c4, rfl⟩
+
+/-- … and with parents-first listing the call does return. -/
+theorem healDir_replaced_ok {s : Signed} (hs : WF s) (hpf : PFirst s) {t : Tree} (hI : TInv t) {p : Path}
+    (hp : p ∈ s.dirs) (hpar : IsDir t p.dropLast) {n : Node} (hg : t.get p = some n) (hn : n ≠ .dir) (k : Nat)
+    (q : List Nat) : ∃ t', healDir s (k + 2) t q p = .ok (t', queueFilesBelow p 0 s.files q) := by
+  have hne : p ≠ [] := (hs.clean p (mem_allPaths_dir hp)).1
+  have hdd : ".." ∉ p := hs.nodd (mem_allPaths_dir hp)
+  obtain ⟨hrm, hmk, _, _⟩ := replace_by_dir hI hne hdd hpar hg hn
+  have hB₀ : Below s t p ((t.erase p).set p .dir) := below_start hI hne hdd hpar hg hn
+  have hl : lstat t p = .ok n := lstat_of_get hI hdd hg
+  obtain ⟨t₃, q₃, hd⟩ := hB₀.dirsLoop_ok hs hpf k s.dirs [] _ q rfl (by simp)
+  obtain ⟨b1, rfl, _, b4⟩ := hB₀.dirsLoop hs k s.dirs _ t₃ q q₃ (fun _ h => h) hd
+  obtain ⟨t₄, c0, _⟩ := b1.symsLoop hs hp s.symlinks t₃ (fun _ h => h) b4
+  refine ⟨t₄, ?_⟩
+  rw [healDir]
+  cases n with
+  | dir => exact absurd rfl hn
+  | file x => simp only [hl, hrm, hmk, hd, c0]
+  | symlink x => simp only [hl, hrm, hmk, hd, c0]
+
+/-- With the parent a directory, a directory wound is healed without error (parents-first listing). -/
+theorem healDir_ok {s : Signed} (hs : WF s) (hpf : PFirst s) {t : Tree} (hI : TInv t) {p : Path}
+    (hp : p ∈ s.dirs) (hpar : IsDir t p.dropLast) (k : Nat) (q : List Nat) :
+    ∃ r, healDir s (k + 2) t q p = .ok r := by
+  have hne : p ≠ [] := (hs.clean p (mem_allPaths_dir hp)).1
+  have hdd : ".." ∉ p := hs.nodd (mem_allPaths_dir hp)
+  have hdd' : ".." ∉ p.dropLast := fun h => hdd (mem_of_mem_dropLast h)
+  cases hg : t.get p with
+  | none =>
+    have hl : lstat t p = .error .enoent := by rw [lstat_of_parent hI hpar hdd, hg]
+    have hfresh : Fresh t p := by
+      refine ⟨hne, ?_, hpar, hdd'⟩
+      intro e he hep
+      have := hI.get e he
+      rw [hep, hg] at this
+      cases this
+    exact ⟨(t.set p .dir, q), by simp only [healDir, hl, mkdirs_new hI hfresh]⟩
+  | some n =>
+    by_cases hn : n = .dir
+    · subst hn
+      have hl : lstat t p = .ok .dir := lstat_of_get hI hdd hg
+      exact ⟨(t, q), by simp only [healDir, hl]⟩
+    · obtain ⟨t', ht'⟩ := healDir_replaced_ok hs hpf hI hp hpar hg hn k q
+      exact ⟨_, ht'⟩
+
+/-! ### the F15 instances (a signed directory replaced by a symlink)
 
   `decide` cannot evaluate `splitDest` (`String.splitOn` is defined by well-founded recursion), so the one
   symlink that validation follows is resolved by hand; everything else is evaluated. -/
@@ -1501,4 +1331,129 @@ theorem f15_validate : validate 2 100 f15Signed f15Tree =
     Outcome.bind]
   rfl
 
+/-- following one symlink in `statFollow` -/
+theorem statFollow_link_step (t : Tree) (fuel : Nat) (p q : Path) (dest : String) (hc : canon t p = .ok q)
+    (hg : t.get q = some (.symlink dest)) (hs : dest.startsWith "/" = false) :
+    statFollow t (fuel + 1) p = statFollow t fuel (q.dropLast ++ splitDest dest) := by
+  simp [statFollow, hc, hg, hs, bind, Except.bind]
+
+/-! #### a richer instance of the repaired F15
+
+  Signed: directory `a` with a nested directory `a/c`, a symlink `a/l → c/g`, files `a/f`, `a/c/g`.  On disk `a` is
+  a symlink to `b`, a moved copy of the directory in which `f` is damaged as well.  Validation goes THROUGH the
+  link: `a/c`, `a/l`, `a/c/g` look healthy, `a/f` gets a file wound. -/
+
+def richSigned : Signed :=
+  { dirs := [["a"], ["a", "c"]], symlinks := [(["a", "l"], "c/g")],
+    files := [(["a", "f"], [1, 2, 3]), (["a", "c", "g"], [4, 5])] }
+
+def richTree : Tree :=
+  { entries := [(["b"], .dir), (["b", "c"], .dir), (["b", "l"], .symlink "c/g"), (["b", "f"], .file [1, 9, 3]),
+      (["b", "c", "g"], .file [4, 5]), (["a"], .symlink "b")] }
+
+theorem rich_canon (c : String) (rest : Path) (fuel : Nat) :
+    resolve richTree (fuel + 1) [] ("a" :: c :: rest) = resolve richTree fuel [] ("b" :: c :: rest) := by
+  rw [resolve_symlink_step _ _ _ _ _ _ "b" (by decide) (by rfl) startsWith_b, splitDest_b]
+  rfl
+
+theorem rich_lstat_a : lstat richTree ["a"] = .ok (.symlink "b") := by rfl
+
+theorem rich_lstat_ac : lstat richTree ["a", "c"] = .ok .dir := by
+  have hc : canon richTree ["a", "c"] = .ok ["b", "c"] := by
+    show resolve richTree (39 + 1) [] ("a" :: "c" :: []) = _
+    rw [rich_canon]; rfl
+  unfold lstat; rw [hc]; rfl
+
+theorem rich_lstat_al : lstat richTree ["a", "l"] = .ok (.symlink "c/g") := by
+  have hc : canon richTree ["a", "l"] = .ok ["b", "l"] := by
+    show resolve richTree (39 + 1) [] ("a" :: "l" :: []) = _
+    rw [rich_canon]; rfl
+  unfold lstat; rw [hc]; rfl
+
+theorem rich_lstat_af : lstat richTree ["a", "f"] = .ok (.file [1, 9, 3]) := by
+  have hc : canon richTree ["a", "f"] = .ok ["b", "f"] := by
+    show resolve richTree (39 + 1) [] ("a" :: "f" :: []) = _
+    rw [rich_canon]; rfl
+  unfold lstat; rw [hc]; rfl
+
+theorem rich_lstat_acg : lstat richTree ["a", "c", "g"] = .ok (.file [4, 5]) := by
+  have hc : canon richTree ["a", "c", "g"] = .ok ["b", "c", "g"] := by
+    show resolve richTree (43 + 1) [] ("a" :: "c" :: "g" :: []) = _
+    rw [rich_canon]; rfl
+  unfold lstat; rw [hc]; rfl
+
+/-- the directory wound of the link, and the one file wound that shows through it -/
+theorem rich_validate : validate 2 100 richSigned richTree =
+    .ok [⟨.dir, 0, 0, 0⟩, ⟨.file, 0, 0, 2⟩, ⟨.closedFile, 0, 2, 3⟩, ⟨.closedFile, 1, 0, 2⟩] := by
+  simp only [validate, richSigned, dirWounds, symlinkWounds, filePassWounds, onDisk, rich_lstat_a, rich_lstat_ac,
+    rich_lstat_al, rich_lstat_af, rich_lstat_acg, Outcome.bind]
+  rfl
+
+/-! #### children listed before their parent, and the parent replaced by a symlink
+
+  `a/c` is listed before `a`; on disk `a` is a symlink to `b`, where `b/c` is a signed regular FILE that is
+  intact.  The directory wound of `a/c` is handled first, while `a` is still a link: `Lstat(a/c)` finds the file
+  `b/c` through the link, removes it and creates the directory `b/c` in its place — destroying an entry that had
+  validated and that nothing heals afterwards. -/
+
+def pfSigned : Signed := { dirs := [["a", "c"], ["a"], ["b"]], files := [(["b", "c"], [1, 2, 3])] }
+def pfTree : Tree := { entries := [(["b"], .dir), (["b", "c"], .file [1, 2, 3]), (["a"], .symlink "b")] }
+def pfTree₁ : Tree := { entries := [(["b"], .dir), (["a"], .symlink "b")] }
+def pfTree₂ : Tree := { entries := [(["b"], .dir), (["a"], .symlink "b"), (["b", "c"], .dir)] }
+
+theorem pf_canon_ac : canon pfTree ["a", "c"] = .ok ["b", "c"] := by
+  show resolve pfTree (39 + 1) [] ("a" :: "c" :: []) = _
+  rw [resolve_symlink_step _ _ _ _ _ _ "b" (by decide) (by rfl) startsWith_b, splitDest_b]
+  rfl
+
+theorem pf_lstat_ac : lstat pfTree ["a", "c"] = .ok (.file [1, 2, 3]) := by
+  unfold lstat; rw [pf_canon_ac]; rfl
+
+theorem pf_validate : validate 2 100 pfSigned pfTree =
+    .ok [⟨.dir, 0, 0, 0⟩, ⟨.dir, 1, 0, 0⟩, ⟨.closedFile, 0, 0, 2⟩, ⟨.closedFile, 0, 2, 3⟩] := by
+  have h1 : lstat pfTree ["a"] = .ok (.symlink "b") := by rfl
+  have h2 : lstat pfTree ["b"] = .ok .dir := by rfl
+  have h3 : lstat pfTree ["b", "c"] = .ok (.file [1, 2, 3]) := by rfl
+  simp only [validate, pfSigned, dirWounds, symlinkWounds, filePassWounds, onDisk, pf_lstat_ac, h1, h2, h3,
+    Outcome.bind]
+  rfl
+
+/-- `os.Remove("a/c")` removes `b/c` -/
+theorem pf_remove : remove pfTree ["a", "c"] = .ok pfTree₁ := by
+  unfold remove; rw [pf_canon_ac]; rfl
+
+/-- `os.MkdirAll("a/c")` creates the directory `b/c` -/
+theorem pf_mkdirs : mkdirs pfTree₁ ["a", "c"] = .ok pfTree₂ := by
+  have hs : statFollow pfTree₁ 8 ["a"] = .ok (["b"], .dir) := by
+    rw [statFollow_link_step pfTree₁ 7 ["a"] ["a"] "b" (by rfl) (by rfl) startsWith_b, splitDest_b]
+    rfl
+  show mkdirAll pfTree₁ (39 + 1) [] ("a" :: ["c"]) = _
+  rw [mkdirAll]
+  simp only [List.nil_append, hs]
+  rfl
+
+/-- the directory wound of `a/c`, handled through the link -/
+theorem pf_healDir : healDir pfSigned (healDepth pfSigned) pfTree [] ["a", "c"] = .ok (pfTree₂, []) := by
+  show healDir pfSigned (3 + 1) pfTree [] ["a", "c"] = _
+  rw [healDir]
+  simp only [pf_lstat_ac, pf_remove, pf_mkdirs]
+  rfl
+
+theorem pf_heal : (match validateAndHeal 2 100 pfSigned pfTree with
+     | .ok t => (t.entries, failFastOk 2 100 pfSigned t) | _ => ([], true)) =
+     ([(["b"], .dir), (["b", "c"], .dir), (["a"], .dir), (["a", "c"], .dir)], false) := by
+  unfold validateAndHeal
+  rw [show validate 2 100 pfSigned pfTree = _ from pf_validate]
+  have h : processWounds pfSigned [⟨.dir, 0, 0, 0⟩, ⟨.dir, 1, 0, 0⟩, ⟨.closedFile, 0, 0, 2⟩, ⟨.closedFile, 0, 2, 3⟩]
+      pfTree [] = processWounds pfSigned [⟨.dir, 1, 0, 0⟩, ⟨.closedFile, 0, 0, 2⟩, ⟨.closedFile, 0, 2, 3⟩]
+      pfTree₂ [] := by
+    rw [processWounds]
+    show (match healDir pfSigned (healDepth pfSigned) pfTree [] ["a", "c"] with
+      | .ok (t', q') => processWounds pfSigned _ t' q'
+      | .error e => .error e) = _
+    rw [pf_healDir]
+  simp only [h]
+  decide
+
 end Wharf.Heal
+
